@@ -13,19 +13,19 @@ A_CF = "CollisionFree: no two different page pre-images among the pages of the t
 A_MODEL = "the hand-written Lean model is the code: tied by the correspondence streams listed in the evidence (DESIGN.md section 4)"
 
 CFG = {
- "C01": dict(streams=S("tsmall","tmid","trand","twide","tdeep","tkeylen"), level="proof",
+ "C01": dict(streams=S("tsmall","tmid","trand","twide","tdeep","tkeylen","tbig"), level="proof",
     theorems=[P+"C01"],
     text="Theorem C01 (kernel-checked, all histories/level assignments/hashers): histories with the same last-write-wins map yield, after a hash request, the identical tree, root hash and serialisation. Tied to /repo by exhaustive small-scope and random history streams with the full page structure compared after every operation, plus implementation-side oracles (fresh rebuild, reference construction).",
     assumptions=[A_TOTAL, A_LVL, A_MODEL]),
- "C02": dict(streams=S("tsmall","tmid","trand","twide","tdeep","tkeylen","tlong"), level="proof",
+ "C02": dict(streams=S("tsmall","tmid","trand","twide","tdeep","tkeylen","tbig","tlong","thash"), level="proof",
     theorems=[P+"C02_no_stale_cache", P+"C02_fresh", P+"C02_gate", P+"C02_regenerated"],
     text="Theorems: the CacheOK invariant holds at every reachable (content, cache-state) pair; a hash request after any interleaving equals the freshly built tree page for page; after any upsert cached root hash and serialisation are unavailable; a hash request restores them. The F1 defect (stale digest) was found by this check and repaired in /repo.",
     assumptions=[A_TOTAL, A_LVL, A_MODEL]),
- "C03": dict(streams=S("dsmall","drand","tcfg","tdeep","tkeylen","dwide","dnear"), level="proof",
+ "C03": dict(streams=S("dsmall","drand","tcfg","tdeep","tkeylen","dwide","dnear","tbig"), level="proof",
     theorems=[P+"C03", P+"C03_histories", P+"C03_one_upsert"],
     text="Theorem: equal root digests imply equal content for any two trees whose page pre-images are collision free (Merkle induction over lt-child, node and high-page tokens); corollaries for histories and for a single upsert. SipHash itself is modelled, not verified.",
     assumptions=[A_TOTAL, A_LVL, A_CF, A_MODEL]),
- "C04": dict(streams=S("dsmall","drand","tdeep","dwide","tkeylen","dnear"), level="proof",
+ "C04": dict(streams=S("dsmall","drand","tdeep","dwide","tkeylen","dnear","tbig"), level="proof",
     theorems=[P+"C04", P+"C04_some_direction", P+"C04_start_held", P+"C04_histories"],
     text="Theorems (all pairs of hashed real trees: any contents, spans nested / partially overlapping / disjoint / empty, any level structure): both diffs empty implies equal content; if contents differ some direction reports a range; every reported range starts at a key the peer holds. Tied by exhaustive ordered-pair streams (all contents over 4-5 keys x all level assignments) and the implementation-side oracle.",
     assumptions=[A_TOTAL, A_LVL, A_CF, A_MODEL]),
@@ -37,27 +37,27 @@ CFG = {
     theorems=[P+"C06_refine", P+"C06_safe", P+"C06_live", P+"C06_peerWins_three_replicas_counterexample", P+"C06_refine_stale", P+"C06_safe_stale", P+"C06_live_stale"],
     text="Join merge (peer-wins with >= 3 replicas is refuted by a theorem); pulls may be atomic OR split into a plan and a later fetch of stale/arbitrary ranges (C06_*_stale); full in the quantifiers it covers: for ANY number of replicas and ANY schedule of writes and pulls (theorem, unbounded): no panic and every replica's tree mirrors its store at every step whatever its cache state (refinement); under join nothing is lost or invented (safety); after writes stop, n*|ops|+1 sweeps pulling between all ordered pairs in any order bring every replica to the join of everything written with equal root hashes (liveness). Peer-wins with >= 3 replicas admits a fair schedule that never converges: proved as a theorem on the model (C06_peerWins_three_replicas_counterexample), so that clause cannot hold for that merge; two-replica peer-wins is C05. In-flight (planned, later applied) pulls are also exercised on the real code by the srand stream.",
     assumptions=[A_TOTAL, A_LVL, "NoCollisions", "join (max) merge; values identified with their digests", A_MODEL]),
- "C07": dict(streams=S("dsmall","drand","tdeep","dwide","tkeylen","dnear"), level="proof",
+ "C07": dict(streams=S("dsmall","drand","tdeep","dwide","tkeylen","dnear","tbig"), level="proof",
     theorems=[P+"C07", P+"C07_empty_local", P+"C07_histories"],
     text="Theorems: under the span condition every peer entry the local tree lacks or holds with another digest lies in a returned range (soundness of every consistent mark via Merkle injectivity + contiguity of sub-pages; the whole peer span is marked inconsistent at the first iteration; reduce keeps bad minus good); an empty replica obtains the whole span.",
     assumptions=[A_TOTAL, A_LVL, A_CF, A_MODEL]),
- "C08": dict(streams=S("dsmall","drand","tsmall","tdeep","dwide"), level="proof",
+ "C08": dict(streams=S("dsmall","drand","tsmall","tdeep","dwide","tbig"), level="proof",
     theorems=[P+"C08", P+"C08_histories", P+"C08_empty_peer"],
     text="Theorems: hashed trees with equal content diff to nothing in both directions, for any pair of histories reaching that content; a diff against an empty peer is empty for any local list.",
     assumptions=[A_TOTAL, A_LVL, A_MODEL]),
- "C09": dict(streams=S("tsmall","tmid","trand","twide","tdeep","tkeylen"), level="proof",
+ "C09": dict(streams=S("tsmall","tmid","trand","twide","tdeep","tkeylen","tbig"), level="proof",
     theorems=[P+"C09", P+"C09_prefix", P+"C09_canonical"],
     text="Theorem: at every state reachable by any history the in-order keys are strictly ascending and the level stratification / non-emptiness invariant holds; these conditions force the unique shape (root_unique).",
     assumptions=[A_TOTAL, A_LVL, A_MODEL]),
- "C10": dict(streams=S("tsmall","tmid","trand","twide","tdeep","tkeylen"), level="proof",
+ "C10": dict(streams=S("tsmall","tmid","trand","twide","tdeep","tkeylen","tbig"), level="proof",
     theorems=[P+"C10", P+"C10_frame"],
     text="Theorem: after any history the content is the key-sorted last-write-wins map (each key once, latest value digest); an upsert leaves every other key's entry untouched.",
     assumptions=[A_TOTAL, A_LVL, A_MODEL]),
- "C11": dict(streams=S("tsmall","tmid","trand","twide","tdeep","tkeylen","tcfg"), level="proof",
+ "C11": dict(streams=S("tsmall","tmid","trand","twide","tdeep","tkeylen","tbig","tcfg"), level="proof",
     theorems=[P+"C11_preorder", P+"C11_once", P+"C11_entry", P+"C11_first", P+"C11_nested", P+"C11_siblings", P+"C11_histories"],
     text="Theorems (every reachable hashed tree): the serialisation succeeds and is the pre-order list of pages, each exactly once, each as (first key, last key of its subtree, its digest); first entry spans the tree with the root hash; entries nest inside every page they are listed under; sibling spans are disjoint and ascending; empty tree gives the empty list. Every serialisation produced in the streams is compared with the model's and with an independent reference implementation.",
     assumptions=[A_TOTAL, A_LVL, A_MODEL]),
- "C12": dict(streams=S("lsmall","lrand","dsmall","drand","tdeep","dwide"), level="proof",
+ "C12": dict(streams=S("lsmall","lrand","dsmall","drand","tdeep","dwide","tbig"), level="proof",
     theorems=[P+"C12_list", P+"C12_tree"],
     text="Theorems: for arbitrary valid page-range lists the output is ascending, disjoint without shared end points, start<=end; for real trees every range additionally lies within the peer's span, starts at a peer key and ends at a peer or local key.",
     assumptions=[A_TOTAL, A_LVL, A_MODEL]),
@@ -65,11 +65,11 @@ CFG = {
     theorems=[P+"C13_partial", P+"C13_constructor", P+"C13_depth_refines", P+"C13_depth_le_input", P+"C13_depth_chain", P+"C13_depth_real_tree"],
     text="PARTIAL. Theorem C13_partial (all finite lists with start<=end, any length/nesting/order/digests): diff terminates, trips no assertion, returns sorted disjoint well-formed ranges with bounds from the input. Not provable in a functional model: stack boundedness; its model-level shadow IS proved: the depth-instrumented walk refines the walk, depth <= |peer| always, a nested chain of n ranges reaches depth n, and against the serialisation of a REAL tree the depth is <= root level + 1 (so library-produced trees are always safe and no fixed stack suffices for untrusted input: this clause is false of the algorithm as written = known finding F2). The model depth is tied to the REAL recursion depth observed through the crate's own tracing spans (ldepth stream, feature tracing). The stack part itself is decided by replaying nested chains on a 2 MiB thread in debug and release: depths <= 4096 must pass; the overflow at depth ~12000 is known finding F2.",
     assumptions=[A_TOTAL, A_MODEL, "machine stack not modelled (known finding F2)"]),
- "C14": dict(streams=S("tcfg","tmid","trand","twide","tdeep","tkeylen","tsmall"), level="proof",
+ "C14": dict(streams=S("tcfg","tmid","trand","twide","tdeep","tkeylen","tbig","tsmall"), level="proof",
     theorems=[P+"C14_level", P+"C14_level_bound", P+"C14_level_machine", P+"C14_level_machine_overflow", P+"C14_root", P+"C14_pages"],
     text="Theorems: level = declarative reference for every byte string and base; after any history the root hash and every page digest equal those of the reference construction built from the sorted content alone. The byte level (token order, SipHash-2-4-128 zero key, finish128 byte order) is executable Lean tied to the siphasher crate and the library by the sip/lvl/hash streams over bases and widths; an independent Rust reference implementation is the implementation-side oracle.",
     assumptions=[A_TOTAL, A_LVL, A_MODEL, "SipHash-2-4-128 modelled, not verified"]),
- "C15": dict(streams=S("tsmall","tmid","trand","twide","tdeep","tkeylen","tlong","dsmall","drand", profiles=["debug","release"]), level="proof",
+ "C15": dict(streams=S("tsmall","tmid","trand","twide","tdeep","tkeylen","tbig","tlong","thash","dsmall","drand", profiles=["debug","release"]), level="proof",
     theorems=[P+"C15_history", P+"C15_serialise", P+"C15_iter", P+"C15_traverse", P+"C15_diff"],
     text="Theorems: with every panic/unwrap/expect/assert/debug_assert site of the modelled code an explicit error, every history of upserts and hash requests, serialisation at every state (and Some after a hash), node iteration, traversal and the diff of any two hashed real trees return ok - no assertion is reachable. Streams run in debug (assertions on) and release profiles with catch_unwind around every operation.",
     assumptions=[A_TOTAL, A_LVL, A_MODEL, "allocation failure / stack not modelled"]),
@@ -77,7 +77,7 @@ CFG = {
     theorems=[P+"C16_roundtrip", P+"C16_diff"],
     text="PARTIAL. Theorems: rebuilding ranges from accessor values never panics and yields equal ranges; diff is the same in either argument position. 'A snapshot keeps describing the tree as it was' is ownership, true by construction in a functional model: modelled, not proved; decided by the harness (borrowed vs PageRangeSnapshot vs rebuilt diffs compared on every tree pair).",
     assumptions=[A_TOTAL, A_MODEL, "snapshot isolation (ownership) is not expressible in the functional model"]),
- "C17": dict(streams=S("vsmall","tsmall","tmid","trand","twide","tdeep","tkeylen"), level="proof",
+ "C17": dict(streams=S("vsmall","tsmall","tmid","trand","twide","tdeep","tkeylen","tbig"), level="proof",
     theorems=[P+"C17_iter", P+"C17_stop", P+"C17_stop_prefix", P+"C17_protocol_page", P+"C17_protocol_node", P+"C17_protocol"],
     text="Theorems (every tree, every visitor, every stop index): the node iterator yields exactly the visit_node sequence; a visitor sees exactly the full callback sequence cut after the first false; the nesting protocol is the (6-line) definition of the trace, tied to the code by comparing every callback sequence incl. early stops, and checked independently by a grammar parser on the implementation side.",
     assumptions=[A_MODEL]),
